@@ -97,8 +97,8 @@ def parts(tier):
                 what='all placements of <=%d short-write deviations over every bulk_write of the session' % k, bound='wcap deviations <= %d' % k)]
     from . import c18
     sc = [{'transport': t, 'buffers': 'small', 'push': pz} for t in twins for pz in ('small', 'big')]
-    out.append(Part('loopback-small-buffers', sc, c18.run_tcp_session, what='real loopback TCP, SO_SNDBUF/SO_RCVBUF 4 KiB, slow reader, 100 KiB and 1 MiB push with a 1 s transport timeout',
-                    bound='%d sessions (conformance runs: kernel scheduling is not enumerated)' % len(sc), exhaustive=False, chunk=1, min_outcomes=1))
+    out.append(Part('loopback-small-buffers', sc, c18.run_tcp_session, what='real loopback TCP, SO_SNDBUF/SO_RCVBUF 4 KiB, slow reader, 100 KiB and 1 MiB push with a 5 s transport timeout',
+                    bound='%d sessions (conformance runs: kernel scheduling is not enumerated)' % len(sc), exhaustive=False, chunk=1, min_outcomes=1, workers=4))
     out.append(Part('global-capacity', [{'twin': t, 'cap': c} for t in twins for c in (1, 7, 23, 24, 25, 4095)], run_short,
                     what='every bulk_write accepts at most c bytes', bound='6 capacities x 2 twins'))
     return out
